@@ -1,3 +1,4 @@
 import Driver.Parse
 import Driver.Smt
 import Driver.Fk
+import Driver.ModelMode
